@@ -758,4 +758,33 @@ theorem legacy_join_nothing_lost (t t' : List Node) (efix cut : Bool)
     · exact inf_left _ ((hg2.trans hc).trans hre)
 
 
+
+
+theorem rewriteAll_noimg (cfg : Cfg) : ∀ (ms : List Msg) (acc : List ImgOut),
+    (∀ m ∈ ms, m.images = []) → rewriteAll cfg ms acc = .ok (ms, acc) := by
+  intro ms
+  induction ms with
+  | nil => intro acc _; rfl
+  | cons m ms ih =>
+    intro acc h
+    have hm := h m (by simp)
+    have : rewriteMsg cfg m acc = .ok (m, acc) := by
+      cases m with
+      | mk r c i =>
+        simp only at hm
+        subst hm
+        simp [rewriteMsg, foldImgs, assemble]
+    simp only [rewriteAll, this, ih acc (fun x hx => h x (by simp [hx]))]
+
+theorem imgCount_noimg (l : List Msg) (h : ∀ m ∈ l, m.images = []) : imgCount l = 0 := by
+  induction l with
+  | nil => rfl
+  | cons m ms ih =>
+    simp only [imgCount, List.map_cons, List.sum_cons]
+    rw [h m (by simp)]
+    have := ih (fun x hx => h x (by simp [hx]))
+    simp only [imgCount] at this
+    simp [this]
+
+
 end OllamaVerif.Prompt
